@@ -663,6 +663,9 @@ func ruleErrorsWrappedWithW(c *Ctx, rule string) {
 				if !isErr {
 					continue
 				}
+				if !mayCarryRepoSentinel(f, a) {
+					continue // an error of the library (strconv, time, os): no sentinel of this repository to lose
+				}
 				n++
 				k++
 				key := f.Name + "|errorf#" + itoa(k)
@@ -795,5 +798,388 @@ func writtenOutHelpers(f *Func) []string {
 		}
 	}
 	sort.Strings(out)
+	return out
+}
+
+
+// mayCarryRepoSentinel: the error expression (err, or err.Error()) can hold an error produced inside this repository:
+// it is a parameter, a package-level value, or a local that some assignment defines from a call of a repository
+// function. A local only ever assigned from library calls carries none of the repository's sentinels.
+func mayCarryRepoSentinel(f *Func, a ast.Expr) bool {
+	e := ast.Unparen(a)
+	if ce, ok := e.(*ast.CallExpr); ok && len(ce.Args) == 0 {
+		if sel, ok := ce.Fun.(*ast.SelectorExpr); ok && sel.Sel.Name == "Error" {
+			e = ast.Unparen(sel.X)
+		}
+	}
+	repoCall := func(x ast.Expr) (isCall, repo bool) {
+		call, ok := ast.Unparen(x).(*ast.CallExpr)
+		if !ok {
+			return false, false
+		}
+		callee := f.Callee(call)
+		if callee == nil || callee.Pkg() == nil {
+			return true, true // a call through a function value: unknown
+		}
+		return true, strings.HasPrefix(callee.Pkg().Path(), "github.com/mk6i/mkdb")
+	}
+	if isCall, repo := repoCall(e); isCall {
+		return repo
+	}
+	id, ok := e.(*ast.Ident)
+	if !ok {
+		return true
+	}
+	obj := f.ObjOf(id)
+	v, isVar := obj.(*types.Var)
+	if !isVar || v.Parent() == nil || v.Parent() == f.Pkg.Types.Scope() {
+		return true
+	}
+	defs := f.assignsTo(f.Decl, obj)
+	if len(defs) == 0 {
+		return true // a parameter or named result
+	}
+	for _, as := range defs {
+		var rhs ast.Expr
+		if len(as.Rhs) == 1 {
+			rhs = as.Rhs[0]
+		} else {
+			for i, l := range as.Lhs {
+				if lid, ok := l.(*ast.Ident); ok && f.ObjOf(lid) == obj && i < len(as.Rhs) {
+					rhs = as.Rhs[i]
+				}
+			}
+		}
+		if rhs == nil {
+			return true
+		}
+		if isCall, repo := repoCall(rhs); !isCall || repo {
+			return true
+		}
+	}
+	return false
+}
+
+// ---- GROUP BY groups, with or without aggregates (D24) ---------------------------------------------------
+
+func ruleGroupByAlwaysGroups(c *Ctx, rule string) {
+	c.Rule(rule, "GROUP BY groups whether or not the select list has an aggregate: wherever aggregateRows hands its input rows back unchanged (`return rows, nil`), a branch condition has shown the GROUP BY list to be empty — an early 'nothing to aggregate' return that looks at the select list only returns `SELECT a FROM t GROUP BY a` ungrouped, one row per input row instead of one per group")
+	f := c.NeedFunc(rule, "engine.aggregateRows")
+	if f == nil {
+		return
+	}
+	g := f.Graph()
+	rowsP, groupP := paramIdent(f, 2), paramIdent(f, 1)
+	if rowsP == nil || groupP == nil {
+		c.Undecided(rule, f.Name+"|params", "aggregateRows does not have the parameters (selectList, groupBy, rows)")
+		return
+	}
+	n := 0
+	inspectBody(f.Decl.Body, func(x ast.Node) bool {
+		ret, ok := x.(*ast.ReturnStmt)
+		if !ok || len(ret.Results) != 2 {
+			return true
+		}
+		id, ok := ast.Unparen(ret.Results[0]).(*ast.Ident)
+		if !ok || f.ObjOf(id) != f.ObjOf(rowsP) || !isNilIdent(f, ret.Results[1]) {
+			return true
+		}
+		loc, ok := g.Locate(ret)
+		if ok {
+			// the grouped result is written back into the same variable: a return behind such a store is not the input
+			for _, as := range f.assignsTo(f.Decl.Body, f.ObjOf(rowsP)) {
+				if al, ok2 := g.Locate(as); ok2 && g.Dominates(al, loc) {
+					return true
+				}
+			}
+		}
+		n++
+		key := f.Name + "|returns-input#" + itoa(n)
+		if ok && (g.HoldsAt(loc, Rel{"len(" + groupP.Name + ")", token.EQL, "0"}) || g.HoldsAt(loc, Rel{groupP.Name, token.EQL, "nil"})) {
+			c.OK(rule, key, ret.Pos(), 2, "the input rows are handed back only where the GROUP BY list is known to be empty")
+		} else {
+			c.Fail(rule, key, ret.Pos(), "aggregateRows hands its input rows back unchanged without having established that there is no GROUP BY: a GROUP BY over a select list without aggregates is not grouped")
+		}
+		return true
+	})
+	if n == 0 {
+		c.OK(rule, f.Name+"|returns-input", f.Decl.Pos(), 1, "aggregateRows never hands its input back unchanged")
+	}
+}
+
+// ---- Fetch hands out Field objects of its own (C05-r10m1) -----------------------------------------------
+
+// ruleFetchFreshFields: the executor writes into the fields a Fetch returns (the table id of the FROM item, and before
+// D22 the alias). They must belong to that one statement.
+func ruleFetchFreshFields(c *Ctx, rule string) {
+	c.Rule(rule, "a Fetch hands out Field objects of its own: the field list RelationService.Fetch returns is filled only with &Field{…} literals created in that call (append or index store), never copied from a cache, from the schema object or from an earlier call — the executor writes the FROM item's table id into these objects, so a Field shared between two Fetches (a memoised schema) lets one statement rename or re-qualify the columns of the next")
+	f := c.NeedFunc(rule, "storage.(*RelationService).Fetch")
+	if f == nil {
+		return
+	}
+	key := f.Name + "|fresh-fields"
+	var fobj types.Object
+	inspectBody(f.Decl.Body, func(x ast.Node) bool {
+		if ret, ok := x.(*ast.ReturnStmt); ok && len(ret.Results) == 3 {
+			if id, ok := ast.Unparen(ret.Results[1]).(*ast.Ident); ok && !isNilIdent(f, id) {
+				fobj = f.ObjOf(id)
+			}
+		}
+		return true
+	})
+	if fobj == nil {
+		c.Fail(rule, key, f.Decl.Pos(), "Fetch does not return a local field list")
+		return
+	}
+	fresh := func(e ast.Expr) bool {
+		u, ok := ast.Unparen(e).(*ast.UnaryExpr)
+		if !ok || u.Op != token.AND {
+			return false
+		}
+		lit, ok := ast.Unparen(u.X).(*ast.CompositeLit)
+		return ok && namedTypeIs(f.TypeOf(lit), "storage", "Field")
+	}
+	bad := ""
+	var badPos token.Pos
+	stores := 0
+	note := func(pos token.Pos, what string) {
+		if bad == "" {
+			bad, badPos = what, pos
+		}
+	}
+	ast.Inspect(f.Decl.Body, func(x ast.Node) bool {
+		switch y := x.(type) {
+		case *ast.AssignStmt:
+			for i, l := range y.Lhs {
+				var rhs ast.Expr
+				if len(y.Rhs) == len(y.Lhs) {
+					rhs = y.Rhs[i]
+				}
+				switch lt := ast.Unparen(l).(type) {
+				case *ast.Ident:
+					if f.ObjOf(lt) != fobj {
+						continue
+					}
+					if rhs == nil {
+						note(y.Pos(), "the field list is a result of "+exprKey(y.Rhs[0]))
+						continue
+					}
+					if call, ok := ast.Unparen(rhs).(*ast.CallExpr); ok {
+						if id, ok := call.Fun.(*ast.Ident); ok && id.Name == "make" {
+							continue
+						}
+						if id, ok := call.Fun.(*ast.Ident); ok && id.Name == "append" && len(call.Args) >= 1 && call.Ellipsis == token.NoPos {
+							if a0, ok := ast.Unparen(call.Args[0]).(*ast.Ident); ok && f.ObjOf(a0) == fobj {
+								allFresh := true
+								for _, a := range call.Args[1:] {
+									if !fresh(a) {
+										allFresh = false
+									}
+								}
+								if allFresh {
+									stores++
+									continue
+								}
+							}
+						}
+					}
+					if isNilIdent(f, rhs) {
+						continue
+					}
+					note(y.Pos(), "the field list receives "+exprKey(rhs))
+				case *ast.IndexExpr:
+					if id, ok := ast.Unparen(lt.X).(*ast.Ident); ok && f.ObjOf(id) == fobj {
+						if rhs != nil && fresh(rhs) {
+							stores++
+						} else {
+							note(y.Pos(), "an element of the field list receives "+exprKey(y.Rhs[0]))
+						}
+					}
+				}
+			}
+		case *ast.CallExpr:
+			if id, ok := y.Fun.(*ast.Ident); ok && id.Name == "copy" && len(y.Args) == 2 {
+				if a0, ok := ast.Unparen(y.Args[0]).(*ast.Ident); ok && f.ObjOf(a0) == fobj {
+					note(y.Pos(), "the field list is filled by copy from "+exprKey(y.Args[1]))
+				}
+			}
+		}
+		return true
+	})
+	switch {
+	case bad != "":
+		c.FailConfined(rule, key, badPos, "%s: the Field objects a Fetch hands out are not created for that call — the executor's stores into them (table id) reach every statement that shares them", bad)
+	case stores == 0:
+		c.Fail(rule, key, f.Decl.Pos(), "no store of a fresh &Field{…} into the returned field list found")
+	default:
+		c.OK(rule, key, f.Decl.Pos(), stores, "the returned field list is filled with &Field{…} literals only (%d stores)", stores)
+	}
+}
+
+// ---- a three-way comparison can say "equal" in every arm (C05-r10m2) ------------------------------------
+
+func ruleThreeWayArmsAgree(c *Ctx, rule string, pkgs ...string) {
+	c.Rule(rule, "sibling agreement inside a three-way comparison: in a function that returns one int and decides it in a type switch over a value's kind, if some arms can answer 0 (`return 0`, or the result of a library Compare), every arm that answers with constants can — an arm whose only answers are -1 and +1 never reports two equal values of that kind as equal, so a multi-key ORDER BY never reaches its later keys for rows tied on such a column")
+	w := c.W
+	n := 0
+	for _, name := range w.SortedFuncNames() {
+		f := w.Funcs[name]
+		inPkg := false
+		for _, p := range pkgs {
+			if f.Pkg == w.Pkgs[p] {
+				inPkg = true
+			}
+		}
+		if !inPkg {
+			continue
+		}
+		sig := f.Obj.Type().(*types.Signature)
+		if sig.Results().Len() != 1 {
+			continue
+		}
+		if b, ok := sig.Results().At(0).Type().Underlying().(*types.Basic); !ok || b.Info()&types.IsInteger == 0 {
+			continue
+		}
+		ast.Inspect(f.Decl.Body, func(x ast.Node) bool {
+			ts, ok := x.(*ast.TypeSwitchStmt)
+			if !ok {
+				return true
+			}
+			type armInfo struct {
+				cc       *ast.CaseClause
+				zero     bool // can answer 0 or a computed value
+				constant bool // answers with constants only
+				rets     int
+			}
+			var arms []armInfo
+			for _, st := range ts.Body.List {
+				cc := st.(*ast.CaseClause)
+				if cc.List == nil {
+					continue
+				}
+				ai := armInfo{cc: cc, constant: true}
+				for _, s := range cc.Body {
+					ast.Inspect(s, func(y ast.Node) bool {
+						if _, isLit := y.(*ast.FuncLit); isLit {
+							return false
+						}
+						ret, ok := y.(*ast.ReturnStmt)
+						if !ok || len(ret.Results) != 1 {
+							return true
+						}
+						ai.rets++
+						if cv := f.constOf(ret.Results[0]); cv != nil {
+							if cv.String() == "0" {
+								ai.zero = true
+							}
+						} else {
+							ai.constant = false
+							ai.zero = true
+						}
+						return true
+					})
+				}
+				if ai.rets > 0 {
+					arms = append(arms, ai)
+				}
+			}
+			zeros := 0
+			for _, a := range arms {
+				if a.zero {
+					zeros++
+				}
+			}
+			if len(arms) < 3 || zeros < 2 {
+				return true
+			}
+			for _, a := range arms {
+				n++
+				key := f.Name + "|three-way-arm|" + exprKey(a.cc.List[0])
+				if !a.zero && a.constant {
+					c.FailConfined(rule, key, a.cc.Pos(), "%s: the %s arm of this three-way comparison can only answer with non-zero constants while %d sibling arms can answer 0: two equal values of that kind never compare equal", f.Name, exprKey(a.cc.List[0]), zeros)
+				} else {
+					c.OK(rule, key, a.cc.Pos(), 1, "the arm can answer 0")
+				}
+			}
+			return true
+		})
+	}
+	if n == 0 {
+		c.OK(rule, "subjects|none", token.NoPos, 1, "no three-way comparison by type switch in %v", pkgs)
+	}
+}
+
+// ---- the split's rest position indexes the buffer it was computed over (C20-r10m2) ----------------------
+
+func ruleRestIndexesItsBuffer(c *Ctx, rule string) {
+	c.Rule(rule, "the rest position the statement splitter returns is used on the very sequence it was computed over: where a function calls splitStatements(X) and slices or indexes some Y with the returned position, X and Y are the same access path — a position counted in the bytes of string(line) is not a position in the runes of line once a non-ASCII character precedes it (the check 'only blanks after the last terminator' then looks at the wrong tail: a panic, or a statement tail silently dropped)")
+	w := c.W
+	n := 0
+	for _, name := range w.SortedFuncNames() {
+		f := w.Funcs[name]
+		if f.Pkg != w.Pkgs["console"] {
+			continue
+		}
+		for _, as := range assignsFromCall(f, "splitStatements") {
+			if len(as.Lhs) != 2 {
+				continue
+			}
+			call := ast.Unparen(as.Rhs[0]).(*ast.CallExpr)
+			rid, ok := as.Lhs[1].(*ast.Ident)
+			if !ok || len(call.Args) != 1 {
+				continue
+			}
+			robj := f.ObjOf(rid)
+			arg := exprKey(call.Args[0])
+			ast.Inspect(f.Decl.Body, func(x ast.Node) bool {
+				var seq ast.Expr
+				uses := false
+				switch y := x.(type) {
+				case *ast.SliceExpr:
+					for _, b := range []ast.Expr{y.Low, y.High} {
+						if id, ok := b.(*ast.Ident); ok && f.ObjOf(id) == robj {
+							uses = true
+						}
+					}
+					seq = y.X
+				case *ast.IndexExpr:
+					if id, ok := y.Index.(*ast.Ident); ok && f.ObjOf(id) == robj {
+						uses = true
+					}
+					seq = y.X
+				}
+				if !uses {
+					return true
+				}
+				n++
+				key := f.Name + "|rest-position#" + itoa(n)
+				if exprKey(seq) == arg {
+					c.OK(rule, key, x.Pos(), 1, "the position is used on %s, the sequence handed to the splitter", arg)
+				} else {
+					c.FailConfined(rule, key, x.Pos(), "%s: the splitter was given %s, its rest position is used on %s — positions in one are not positions in the other (bytes vs. runes)", f.Name, arg, exprKey(seq))
+				}
+				return true
+			})
+		}
+	}
+	if n == 0 {
+		c.Undecided(rule, "subjects|rest-position", "no use of the splitter's rest position as an index found in the console")
+	}
+}
+
+func assignsFromCall(f *Func, callee string) []*ast.AssignStmt {
+	var out []*ast.AssignStmt
+	ast.Inspect(f.Decl.Body, func(x ast.Node) bool {
+		as, ok := x.(*ast.AssignStmt)
+		if !ok || len(as.Rhs) != 1 {
+			return true
+		}
+		if call, ok := ast.Unparen(as.Rhs[0]).(*ast.CallExpr); ok {
+			if fn := f.Callee(call); fn != nil && fn.Name() == callee {
+				out = append(out, as)
+			}
+		}
+		return true
+	})
 	return out
 }
